@@ -471,7 +471,7 @@ static void meas_gen(Ctx& ctx) {
                     ctx.eval(Json::object().set("len", len).set("h", h).set("bin", bm).set("amode", am).set("scale", (h + bm + am) & 1)
                                .set("seed", (long long)(mix(ctx.seed, key_of(len, h, bm, am)) >> 16)));
                 }
-    ctx.rc("random", ctx.by_tier(9000, 250000), [&]() {
+    ctx.rc("random", ctx.by_tier(9000, 120000), [&]() {
         int lc = pick(0, 3), len;
         if (lc == 0) len = 1 << pick(11, 17);
         else if (lc == 1) { len = (1 << pick(11, 17)) + (flip() ? 1 : -1); if (len < 2048) len = 2049; if (len > 131072) len = 131071; }
